@@ -16,7 +16,7 @@ Oracle   SQLite: the real query is run and compared row by row with Python's `na
          mismatch inside them is a violation.
 Known finding `slice-stop-const-minus-one` (`s[:-1]`, `s[0:-1]`, parameter stop -1): replayed on real SQLite on every run.
 """
-import ast as pyast, itertools, json, sqlite3
+import itertools, json, sqlite3, time
 import ponyutil
 ponyutil.add_stubs()
 from pony.orm import Database, Required, Optional, PrimaryKey, db_session, select
@@ -34,6 +34,18 @@ class RecBuilder(object):
     """recording builder: `builder(sql)` returns the AST it is given"""
     def __init__(self, dialect): self.dialect = dialect
     def __call__(self, sql): return sql
+
+def drive(ctx, reqs):
+    """batch call of the Lean driver; the binary is shared with concurrently running checks that may relink it, so a
+    failed call (missing / truncated executable) is retried a few times before giving up"""
+    last = None
+    for attempt in range(4):
+        try:
+            return ctx.driver('C25', reqs)
+        except (OSError, RuntimeError, ValueError) as e:
+            last = e
+            time.sleep(3 + 4 * attempt)
+    raise last
 
 def norm(x):
     if isinstance(x, (tuple, list)): return [norm(i) for i in x]
@@ -106,7 +118,7 @@ def translator_tie(ctx):
                 real = real_call(SQLBuilder.STRING_SLICE, rb, ['COLUMN', 'e.name'], a, b)
                 reqs.append({'op': 'gen', 'dialect': d, 'expr': ['COLUMN', 'e.name'], 'start': a, 'stop': b})
                 meta.append(('gen-malformed', d, ['COLUMN', 'e.name'], a, b, real))
-    outs = ctx.driver('C25', reqs)
+    outs = drive(ctx, reqs)
     for (kind, d, recv, a, b, real), out in zip(meta, outs):
         inp = [kind, d, recv, a, b]
         ctx.case(inp, nontrivial=True, kind='translator-tie:' + kind)
@@ -162,7 +174,7 @@ def primitives_tie(ctx):
             except ValueError: r = {'error': 'badInt'}
             except TypeError: r = {'error': 'typeError'}
             reqs.append({'op': 'udf', 's': s, 'a': a, 'b': b}); exp.append(r); meta.append(('udf', s, a, b))
-    outs = ctx.driver('C25', reqs)
+    outs = drive(ctx, reqs)
     for m, e, o in zip(meta, exp, outs):
         ctx.case(list(m), kind='primitive-tie:' + m[0])
         if isinstance(o, dict) and 'error' in o: o = {'error': o['error']}
@@ -388,7 +400,7 @@ def run_provider(ctx, provider, suspects, failures):
                 eval_meta.append((kind, recv, a, b, src, s, i, j, r['name']))
     # ---- hand model vs the real translator / builder
     if ctx.driver.ok and model_reqs:
-        outs = ctx.driver('C25', model_reqs)
+        outs = drive(ctx, model_reqs)
         for (kind, recv, a, b, src, real_node, real_sql, real_fixed), o in zip(model_meta, outs):
             ctx.case([provider, 'ast', src], kind='getitem-tie:' + provider + ':' + kind)
             if 'res' not in o:
@@ -409,7 +421,7 @@ def run_provider(ctx, provider, suspects, failures):
                 ctx.divergence('pinned parameter values (fixed_param_values) differ', [provider, src], model=o['fixed'], impl=real_fixed)
     # ---- oracle for the other dialects: the real AST under the Lean dialect evaluator
     if ctx.driver.ok and eval_reqs:
-        outs = ctx.driver('C25', eval_reqs)
+        outs = drive(ctx, eval_reqs)
         for (kind, recv, a, b, src, s, i, j, r_name), o in zip(eval_meta, outs):
             if 'driver_error' in o:
                 ctx.divergence('the emitted AST is outside the node kinds of the evaluator', [provider, src], model=o['driver_error'], impl=None); continue
@@ -465,7 +477,7 @@ def ast_grid(ctx, suspects, failures):
                 for s in strings:
                     reqs.append({'op': 'eval', 'dialect': d, 'ast': sql, 'cols': {'e.name': None if (d == 'Oracle' and s == '') else s, 'e.k': i, 'e.m': j}})
                     meta.append((d, ka, kb, s, i, j))
-    outs = ctx.driver('C25', reqs)
+    outs = drive(ctx, reqs)
     for (d, ka, kb, s, i, j), o in zip(meta, outs):
         py = s[i:j]
         exp = ('ok', None if (d == 'Oracle' and py == '') else py)
